@@ -147,6 +147,264 @@ def translate(path, func, coq_name, consts=()):
     return pyname, ''.join(cx.defs)
 
 
+
+# ---------------------------------------------------------------------------------------------------------------------
+# Block mode: a run of statements inside a METHOD (or the body of its single loop) becomes one Coq definition.
+#
+# Every value the block READS before writing it -- `self.attr` (attribute chains included), a local defined before the
+# block, an array element `H[i-1]` addressed through the loop variable -- is a parameter; the caller declares the
+# parameters in order and the translator fails unless the set it discovers is exactly the declared one. Every value the
+# block WRITES (`x = e`, `x += e`, `self.a = e`, `z[i] = e`) is a let-binding; later reads see the binding. The result
+# is the tuple of the current bindings of the declared result l-values. Calls: np/math exp, log, sqrt; a function
+# nested in the method (translated as its own definition); calls declared opaque (`spe.expn`, `self.gravity_at_height`)
+# become applications of a function parameter. Skipped, and only these: docstrings, imports, `self.debug/info/warning/
+# error(...)` statements, `x = np.zeros(...)` allocations, `if <x> is None:` initialisation blocks (the model starts
+# from the initialised state), declared no-op calls; `with ...:` and `try: ... except ZeroDivisionError` contribute their
+# body (the lemma carries the non-zero hypothesis); `if <loopvar> < <n>:` inside a loop body contributes its body (the
+# model's step is the interior step). Anything else raises TranslateError.
+
+LOGCALLS = ('debug', 'info', 'warning', 'error', 'critical')
+
+
+def _key(e):
+    return ast.unparse(e).replace(' ', '')
+
+
+def _coqname(key):
+    out = key.replace('self.', 'self_').replace('.', '_').replace('[', '_').replace(']', '').replace('-', 'm').replace('+', 'p')
+    out = ''.join(ch if (ch.isalnum() or ch == '_') else '_' for ch in out)
+    return RENAME.get(out, out)
+
+
+class Block:
+    def __init__(self, src, params, opaque, nested, consts, loopvar=None, noop=()):
+        self.src, self.params, self.opaque, self.nested = src, list(params), dict(opaque), dict(nested)
+        self.consts, self.loopvar, self.noop = list(consts), loopvar, tuple(noop)
+        self.env, self.ver, self.lets, self.read, self.defs, self.done = {}, {}, [], [], [], {}
+
+    # ---- reads
+    def lvalue(self, e):
+        if isinstance(e, ast.Name):
+            return True
+        if isinstance(e, ast.Attribute):
+            v = e
+            while isinstance(v, ast.Attribute):
+                v = v.value
+            return isinstance(v, ast.Name) and v.id == 'self'
+        if isinstance(e, ast.Subscript) and isinstance(e.value, ast.Name) and self.loopvar is not None:
+            i = e.slice
+            if isinstance(i, ast.Name) and i.id == self.loopvar:
+                return True
+            if isinstance(i, ast.BinOp) and isinstance(i.op, (ast.Add, ast.Sub)) and isinstance(i.left, ast.Name) \
+                    and i.left.id == self.loopvar and isinstance(i.right, ast.Constant) and isinstance(i.right.value, int):
+                return True
+        return False
+
+    def get(self, e):
+        k = _key(e)
+        if k in self.env:
+            return self.env[k]
+        if k in self.consts:
+            return _name(k)
+        if k not in self.params:
+            raise TranslateError('the block reads %s, which is not a declared parameter' % k)
+        if k not in self.read:
+            self.read.append(k)
+        return _coqname(k)
+
+    def put(self, e, val):
+        k = _key(e)
+        self.ver[k] = self.ver.get(k, 0) + 1
+        nm = '%s_v%d' % (_coqname(k), self.ver[k])
+        self.lets.append((nm, val))
+        self.env[k] = nm
+
+    # ---- expressions
+    def const(self, e):
+        """Fraction of a (possibly negated, parenthesised) numeric literal, read as written; None otherwise"""
+        if isinstance(e, ast.UnaryOp) and isinstance(e.op, ast.USub):
+            c = self.const(e.operand)
+            return None if c is None else -c
+        if isinstance(e, ast.Constant) and isinstance(e.value, (int, float)) and not isinstance(e.value, bool):
+            text = ast.get_source_segment(self.src, e)
+            try:
+                return Fraction(text)
+            except (ValueError, ZeroDivisionError, TypeError):
+                return Fraction(e.value)
+        return None
+
+    @staticmethod
+    def lit(f):
+        if f.denominator == 1:
+            return '%d' % f.numerator if f.numerator >= 0 else '(- %d)' % -f.numerator
+        return '(%d / %d)' % (f.numerator, f.denominator) if f > 0 else '(- (%d / %d))' % (-f.numerator, f.denominator)
+
+    def expr(self, e):
+        c = self.const(e)
+        if c is not None:
+            return self.lit(c)
+        if self.lvalue(e):
+            return self.get(e)
+        if isinstance(e, ast.UnaryOp) and isinstance(e.op, ast.USub):
+            return '(- %s)' % self.expr(e.operand)
+        if isinstance(e, ast.BinOp):
+            if isinstance(e.op, ast.Pow):
+                c = self.const(e.right)
+                if c is None:
+                    raise TranslateError('power with a non-constant exponent')
+                b = self.expr(e.left)
+                if c.denominator == 1 and 0 < c.numerator <= 8:
+                    return '(' + ' * '.join([b] * c.numerator) + ')'
+                return '(exp (%s * ln %s))' % (self.lit(c), b)      # x**c for positive x, as numpy computes it up to rounding
+            op = {ast.Add: '+', ast.Sub: '-', ast.Mult: '*', ast.Div: '/'}.get(type(e.op))
+            if op is None:
+                raise TranslateError('unsupported operator %s' % type(e.op).__name__)
+            return '(%s %s %s)' % (self.expr(e.left), op, self.expr(e.right))
+        if isinstance(e, ast.Attribute) and _key(e) in ('np.pi', 'numpy.pi', 'math.pi'):
+            return 'PI'
+        if isinstance(e, ast.Call) and not e.keywords:
+            f = _key(e.func)
+            if f in self.opaque:
+                return '(%s %s)' % (self.opaque[f], ' '.join(self.expr(a) for a in e.args))
+            if f.split('.')[0] in ('np', 'numpy', 'math') and f.split('.')[-1] in FUNCS and len(e.args) == 1:
+                return '(%s %s)' % (FUNCS[f.split('.')[-1]], self.expr(e.args[0]))
+            if f in self.nested:
+                return '(%s %s)' % (self.nested_fn(f), ' '.join(list(self.opaque.values()) + [self.expr(a) for a in e.args]))
+        raise TranslateError('unsupported expression %s' % ast.unparse(e)[:120])
+
+    def nested_fn(self, name):
+        if name in self.done:
+            return self.done[name]
+        fn = self.nested[name]
+        sub = Block(self.src, [a.arg for a in fn.args.args], self.opaque, {}, self.consts)
+        sub.stmts(fn.body, results=None)
+        if sub.result is None:
+            raise TranslateError('nested function %s has no return' % name)
+        coq = 'gen_' + name
+        fparams = ''.join(' (%s : R -> R -> R)' % v if self.opaque_arity.get(v, 1) == 2 else ' (%s : R -> R)' % v
+                          for v in self.opaque.values())
+        body = ''.join('let %s := %s in\n    ' % l for l in sub.lets) + sub.result
+        self.defs.append('Definition %s%s (%s : R) : R :=\n    %s.\n' % (coq, fparams, ' '.join(_coqname(a.arg) for a in fn.args.args), body))
+        self.done[name] = coq
+        return coq
+
+    opaque_arity = {}
+    result = None
+
+    # ---- statements
+    def stmts(self, body, results, stop=None):
+        """returns True when the last result l-value has been assigned and translation should stop"""
+        for st in body:
+            if isinstance(st, ast.Expr) and isinstance(st.value, ast.Constant) and isinstance(st.value.value, str):
+                continue
+            if isinstance(st, (ast.Import, ast.ImportFrom, ast.Pass)):
+                continue
+            if isinstance(st, ast.FunctionDef):
+                if st.name not in self.nested:
+                    raise TranslateError('undeclared nested function %s' % st.name)
+                continue
+            if isinstance(st, ast.Expr) and isinstance(st.value, ast.Call):
+                f = _key(st.value.func)
+                if (f.startswith('self.') and f.split('.')[-1] in LOGCALLS) or f in self.noop:
+                    continue
+                raise TranslateError('call statement %s' % f)
+            if isinstance(st, ast.Assign) and len(st.targets) == 1 and self.lvalue(st.targets[0]):
+                v = st.value
+                if isinstance(v, ast.Call) and _key(v.func) in ('np.zeros', 'np.zeros_like', 'np.empty', 'np.empty_like'):
+                    continue
+                self.put(st.targets[0], self.expr(v))
+            elif isinstance(st, ast.AugAssign) and self.lvalue(st.target) and isinstance(st.op, (ast.Add, ast.Sub, ast.Mult, ast.Div)):
+                op = {ast.Add: '+', ast.Sub: '-', ast.Mult: '*', ast.Div: '/'}[type(st.op)]
+                self.put(st.target, '(%s %s %s)' % (self.get(st.target), op, self.expr(st.value)))
+            elif isinstance(st, ast.With):
+                if self.stmts(st.body, results, stop):
+                    return True
+                continue
+            elif isinstance(st, ast.Try) and len(st.handlers) == 1 and _key(st.handlers[0].type) == 'ZeroDivisionError' \
+                    and not st.orelse and not st.finalbody:
+                if self.stmts(st.body, results, stop):
+                    return True
+                continue
+            elif isinstance(st, ast.If) and isinstance(st.test, ast.Compare) and len(st.test.ops) == 1 \
+                    and isinstance(st.test.ops[0], ast.Is) and isinstance(st.test.comparators[0], ast.Constant) \
+                    and st.test.comparators[0].value is None and not st.orelse:
+                continue                     # `if x is None:` initialisation: the model starts from the initialised state
+            elif isinstance(st, ast.If) and self.loopvar is not None and isinstance(st.test, ast.Compare) \
+                    and len(st.test.ops) == 1 and isinstance(st.test.ops[0], ast.Lt) and isinstance(st.test.left, ast.Name) \
+                    and st.test.left.id == self.loopvar and not st.orelse:
+                if self.stmts(st.body, results, stop):
+                    return True
+                continue
+            elif isinstance(st, ast.Return) and results is None:
+                self.result = self.expr(st.value)
+                return True
+            else:
+                raise TranslateError('unsupported statement: %s' % ast.unparse(st)[:100])
+            if stop is not None and stop in self.env:
+                return True
+        return False
+
+
+def _find_method(tree, cls, method):
+    for n in tree.body:
+        if isinstance(n, ast.ClassDef) and n.name == cls:
+            for m in n.body:
+                if isinstance(m, ast.FunctionDef) and m.name == method:
+                    return m
+    raise TranslateError('method %s.%s not found' % (cls, method))
+
+
+def translate_block(path, cls, method, coq_name, params, results, start=None, loop=False, opaque=None, nested=(),
+                    consts=(), noop=()):
+    """-> Coq text. params / results: python l-value texts (`self.mean`, `H[i-1]`, `tau`), in the order of the generated
+    definition's arguments / result tuple. start: begin at the first assignment to this name (statements before it are
+    outside the block). loop: the block is the body of the method's single `for` loop. opaque: {call text: (coq function
+    parameter, arity)}. nested: names of functions defined inside the method that the block calls."""
+    import warnings
+    src = open(path).read()
+    with warnings.catch_warnings():
+        warnings.simplefilter('ignore')
+        tree = ast.parse(src)
+    fn = _find_method(tree, cls, method)
+    body, loopvar = fn.body, None
+    if loop:
+        loops = [s for s in fn.body if isinstance(s, ast.For)]
+        if len(loops) != 1 or not isinstance(loops[0].target, ast.Name) or loops[0].orelse:
+            raise TranslateError('%s.%s: expected exactly one for loop' % (cls, method))
+        body, loopvar = loops[0].body, loops[0].target.id
+    nest = {s.name: s for s in fn.body if isinstance(s, ast.FunctionDef) and s.name in nested}
+    if set(nest) != set(nested):
+        raise TranslateError('nested functions %s not found in %s.%s' % (sorted(set(nested) - set(nest)), cls, method))
+    if start is not None:
+        idx = [i for i, s in enumerate(body) if isinstance(s, ast.Assign) and len(s.targets) == 1 and _key(s.targets[0]) == start]
+        if not idx:
+            raise TranslateError('no assignment to %s in %s.%s' % (start, cls, method))
+        body = body[idx[0]:]
+    opaque = opaque or {}
+    b = Block(src, params, {k: v[0] for k, v in opaque.items()}, nest, consts, loopvar, noop)
+    b.opaque_arity = {v[0]: v[1] for v in opaque.values()}
+    b.stmts(body, results, stop=results[-1] if (results and not loop) else None)
+    if results is None:
+        if b.result is None:
+            raise TranslateError('%s.%s: no return value' % (cls, method))
+        b.lets.append(('result_v', b.result))
+        b.env['<return>'] = 'result_v'
+        results = ['<return>']
+    missing = [r for r in results if r not in b.env]
+    if missing:
+        raise TranslateError('%s.%s: the block never assigns %s' % (cls, method, missing))
+    if sorted(b.read) != sorted(params):
+        raise TranslateError('%s.%s: the block reads %s but the tie declares %s' % (cls, method, sorted(b.read), sorted(params)))
+    fparams = ''.join(' (%s : R -> R -> R)' % v[0] if v[1] == 2 else ' (%s : R -> R)' % v[0] for v in opaque.values())
+    cparams = ''.join(' (%s : R)' % _name(c) for c in consts)
+    res = b.env[results[0]] if len(results) == 1 else '(' + ', '.join(b.env[r] for r in results) + ')'
+    rty = ' * '.join(['R'] * len(results))
+    text = ''.join(b.defs) + 'Definition %s%s%s (%s : R) : %s :=\n    %s%s.\n' % (
+        coq_name, fparams, cparams, ' '.join(_coqname(p) for p in params), rty,
+        ''.join('let %s := %s in\n    ' % l for l in b.lets), res)
+    return text
+
+
 if __name__ == '__main__':
     import sys
     print(translate(sys.argv[1], sys.argv[2], 'gen_' + sys.argv[2], consts=sys.argv[3:])[1])
